@@ -70,6 +70,33 @@ var c20sequences = [][2]string{{"NEA1", "NIA1"}, {"NIA1(300 octets)", "NEA1(300 
 	// refused encoding followed by a valid one (error paths release things, too)
 	{"NEA2", "NEA2"}, {"NIA2", "NIA2"}, {"NGAP refused encode", "NGAP-encode-decode"}}
 
+// c20long: operations on long messages (several kilo-octets: above any chunk size an implementation may work in). They
+// have thousands of scheduling points, so the scheduler takes them in thorough only (each against itself); the
+// free-running pass runs them in both tiers.
+func c20long() []c20op {
+	msg := func(ue, n int) []byte { return pattern(3+ue, n) }
+	return []c20op{
+		{"NEA1(9000 octets)", func(ue int) string {
+			p := msg(ue, 9000+ue)
+			err := security.NASEncrypt(security.AlgCiphering128NEA1, c20key(ue, 11), uint32(ue+1), 1, 0, p)
+			return fmt.Sprintf("%x %v", refcrypto.CMAC(make([]byte, 16), p), err)
+		}},
+		{"NIA1(9000 octets)", func(ue int) string {
+			m, err := security.NASMacCalculate(security.AlgIntegrity128NIA1, c20key(ue, 12), uint32(ue+1), 1, 1, msg(ue, 9000+ue))
+			return fmt.Sprintf("%x %v", m, err)
+		}},
+		{"NEA2(9000 octets)", func(ue int) string {
+			p := msg(ue, 9000+ue)
+			err := security.NASEncrypt(security.AlgCiphering128NEA2, c20key(ue, 13), uint32(ue+1), 1, 0, p)
+			return fmt.Sprintf("%x %v", refcrypto.CMAC(make([]byte, 16), p), err)
+		}},
+		{"NIA2(9000 octets)", func(ue int) string {
+			m, err := security.NASMacCalculate(security.AlgIntegrity128NIA2, c20key(ue, 14), uint32(ue+1), 1, 1, msg(ue, 9000+ue))
+			return fmt.Sprintf("%x %v", m, err)
+		}},
+	}
+}
+
 func c20single() []c20op {
 	msg := func(ue, n int) []byte { return pattern(3+ue, n) }
 	return []c20op{
@@ -104,7 +131,7 @@ func c20single() []c20op {
 			case 1:
 				b, err = tglib.GetInitialUEMessage(int64(ue+1), msg(ue, 20), "")
 			default:
-				b, err = tglib.GetPDUSessionResourceSetupResponse(int64(1000+ue), int64(ue+1), 5, "10.0.0.7")
+				b, err = tglib.GetPDUSessionResourceSetupResponse(int64(1000+ue), int64(ue+1), 5, fmt.Sprintf("10.0.%d.7", ue))
 			}
 			if err != nil {
 				return err.Error()
@@ -228,6 +255,23 @@ func c20single() []c20op {
 			b, e2 := tglib.GetUEContextReleaseComplete(int64(100+ue), int64(ue+1), []int64{int64(1 + ue)})
 			c, e3 := tglib.GetPDUSessionResourceReleaseResponse(int64(100+ue), int64(ue+1), int64(1+ue))
 			return fmt.Sprintf("%x %x %x %v %v %v", a, b, c, e1, e2, e3)
+		}},
+		{"DeriveRESstarAndSetKey(OP only, one operator OP, own K)", func(ue int) string {
+			// the realistic provisioning: every UE of an operator has the same OP and its own K (OPc depends on both)
+			u := tglib.NewRanUeContext(fmt.Sprintf("imsi-00101000000002%d", ue), int64(ue), 2, 2)
+			k, op := c20key(ue, 21), c20key(0, 22)
+			subs := tglib.GetAuthSubscription(fmt.Sprintf("%x", k), "", fmt.Sprintf("%x", op))
+			var autn [16]byte
+			autn[3] = byte(ue + 1)
+			rand := c20key(ue, 23)
+			res := u.DeriveRESstarAndSetKey(subs, autn, rand[:], "5G:mnc001.mcc001.3gppnetwork.org", "01", "001")
+			return fmt.Sprintf("%x %x %x %x", res, u.Kamf, u.KnasEnc, u.KnasInt)
+		}},
+		{"NASEncode(NIA0,NEA0) short message", func(ue int) string {
+			u := tglib.NewRanUeContext("imsi-001010000000001", int64(ue), 0, 0)
+			u.ULCount.Set(0, uint8(ue+3))
+			out, err := tglib.EncodeNasPduWithSecurity(u, nasTestpacket.GetStatus5GMM(uint8(0x60+ue)), 1, true, false)
+			return fmt.Sprintf("%x %v", out, err)
 		}},
 		// two UEs that happen to hold the same key (state kept per key is then the same object for both), own messages and COUNTs
 		{"NIA2(key equal for all UEs)", func(ue int) string {
